@@ -279,15 +279,158 @@ def rule_r3(ctx, rep):
     rep.floor("child dereferences in node validation", 1)
 
 
+def rule_r4(ctx, rep):
+    """node verdicts are independent of earlier validations: the matcher object is built afresh for every node and
+    nothing on the validation slice writes module- or class-level state"""
+    prog = ctx.prog
+    w = ctx.world
+    fi = prog.func(NODE)
+    ft = w.types(fi)
+    # the object validate_rule is called on
+    makers = []
+    for n in ast.walk(fi.node):
+        if isinstance(n, ast.Call) and isinstance(n.func, ast.Attribute) and n.func.attr == "validate_rule":
+            recv = n.func.value
+            if isinstance(recv, ast.Name):
+                for a in ast.walk(fi.node):
+                    if isinstance(a, ast.Assign) and any(isinstance(t, ast.Name) and t.id == recv.id for t in a.targets):
+                        makers.append(a.value)
+            else:
+                makers.append(recv)
+    rep.count("matcher objects used by validate.node", len(makers))
+
+    def fresh(e, depth=0):
+        if depth > 3 or not isinstance(e, ast.Call):
+            return False, "is not a call that builds a Rule"
+        for tg in w.resolve_call(ft if depth == 0 else w.types(cur[0]), e):
+            if tg.kind == "class":
+                return True, ""
+            if tg.func is not None:
+                if tg.func.node.decorator_list:
+                    return False, f"{tg.func.qname} is decorated ({norm(tg.func.node.decorator_list[0])}): its result may be shared between calls"
+                rets = [r for r in ast.walk(tg.func.node) if isinstance(r, ast.Return) and r.value is not None]
+                if not rets:
+                    return False, f"{tg.func.qname} returns nothing"
+                cur[0] = tg.func
+                for r in rets:
+                    v = r.value
+                    if isinstance(v, ast.Name):
+                        defs = [a.value for a in ast.walk(tg.func.node) if isinstance(a, ast.Assign) and any(isinstance(t, ast.Name) and t.id == v.id for t in a.targets)]
+                        if len(defs) != 1:
+                            return False, f"{tg.func.qname} returns `{v.id}`, which is not bound once to a new Rule"
+                        v = defs[0]
+                    ok, why = fresh(v, depth + 1)
+                    if not ok:
+                        return False, why or f"{tg.func.qname} does not return a newly built Rule"
+                return True, ""
+        return False, "cannot be resolved"
+    cur = [fi]
+    for m in makers:
+        cur[0] = fi
+        ok, why = fresh(m)
+        if ok:
+            rep.oblige(("R4", "fresh", norm(m)), True)
+            continue
+        # a shared matcher object is fine as long as every field validation writes is reset before it is used
+        rep.notes.append(f"the matcher object is not built afresh per node ({why}); checking the per-call reset discipline instead")
+        from ..types import RULE_Q
+        rci = prog.cls(RULE_Q)
+        vr = rci.methods.get("validate_rule")
+        slice_m = [f for f in reachable(ctx, [vr]) if f.cls is not None and f.cls.qname == RULE_Q and f.name != "__init__"]
+        written = {}
+        for f in slice_m:
+            if not f.bound or not f.params:
+                continue
+            sp = f.params[0]
+            for n in ast.walk(f.node):
+                tg = None
+                if isinstance(n, (ast.Assign, ast.AugAssign)):
+                    for t in (n.targets if isinstance(n, ast.Assign) else [n.target]):
+                        if isinstance(t, ast.Attribute) and isinstance(t.value, ast.Name) and t.value.id == sp:
+                            tg = t.attr
+                        if isinstance(t, ast.Subscript) and isinstance(t.value, ast.Attribute) and isinstance(t.value.value, ast.Name) and t.value.value.id == sp:
+                            tg = t.value.attr
+                if isinstance(n, ast.Call) and isinstance(n.func, ast.Attribute) and n.func.attr in ("append", "add", "update", "pop", "clear", "setdefault", "extend", "insert", "remove", "discard") \
+                        and isinstance(n.func.value, ast.Attribute) and isinstance(n.func.value.value, ast.Name) and n.func.value.value.id == sp:
+                    tg = n.func.value.attr
+                if tg:
+                    written.setdefault(tg, []).append((f, n))
+        for fld, sites in sorted(written.items()):
+            resetters = []
+            for f in slice_m:
+                if not f.bound or not f.params:
+                    continue
+                sp = f.params[0]
+                for st_ in f.node.body:
+                    if isinstance(st_, ast.Expr) and isinstance(st_.value, ast.Constant):
+                        continue
+                    if isinstance(st_, ast.Assign) and any(isinstance(t, ast.Attribute) and isinstance(t.value, ast.Name) and t.value.id == sp and t.attr == fld
+                                                           for t in st_.targets) and not any(isinstance(x, ast.Attribute) and x.attr == fld and isinstance(x.ctx, ast.Load) for x in ast.walk(st_.value)):
+                        resetters.append(f)
+                        break
+                    if any(isinstance(x, ast.Attribute) and x.attr == fld for x in ast.walk(st_)) or any(isinstance(x, ast.Call) for x in ast.walk(st_)) \
+                            and not isinstance(st_, ast.Assign):
+                        break
+            okf = False
+            for r in resetters:
+                below = {g.qname for g in reachable(ctx, [r])}
+                users = {f.qname for f in slice_m if any(isinstance(x, ast.Attribute) and x.attr == fld for x in ast.walk(f.node))}
+                if users <= below:
+                    okf = True
+            rep.oblige(("R4", "reset", fld), okf)
+            if not okf:
+                f0, n0 = sites[0]
+                rep.add("R4", f0.qname, n0, f"the matcher object is shared between validations ({why}) and its field `{fld}` is written during validation "
+                        f"without being reset at the start of each one: the verdict on a node depends on what was validated before", f0.loc(n0))
+    # no writes to module-level / class-level state on the validation slice
+    sl = reachable(ctx, [prog.func(q) for q in ENTRY])
+    for f in sl:
+        f_t = w.types(f)
+        for n in ast.walk(f.node):
+            tgt = None
+            if isinstance(n, (ast.Assign, ast.AugAssign, ast.Delete)):
+                for t in (n.targets if isinstance(n, (ast.Assign, ast.Delete)) else [n.target]):
+                    if isinstance(t, ast.Subscript):
+                        tgt = t.value
+                    elif isinstance(t, ast.Attribute):
+                        tgt = t
+            if isinstance(n, ast.Call) and isinstance(n.func, ast.Attribute) and n.func.attr in ("append", "add", "update", "pop", "clear", "setdefault", "extend", "insert", "remove", "discard"):
+                tgt = n.func.value
+            if isinstance(n, ast.Global):
+                rep.add("R4", f.qname, n, "validation rebinds a module-level name", f.loc(n))
+            if tgt is None:
+                continue
+            rep.count("stores on the validation slice")
+            r = prog.resolve_name_expr(f.module, tgt) if isinstance(tgt, (ast.Name, ast.Attribute)) else None
+            shared = False
+            if isinstance(tgt, ast.Name) and tgt.id in f_t.env or (isinstance(tgt, ast.Name) and tgt.id in f.params):
+                shared = False
+            elif r and r[0] in ("const", "classattr"):
+                shared = True
+            elif isinstance(tgt, ast.Attribute) and isinstance(tgt.value, ast.Name) and tgt.value.id in ("cls",):
+                shared = True
+            elif isinstance(tgt, ast.Attribute) and isinstance(tgt.value, ast.Name) and tgt.value.id == "self" and f.cls is not None \
+                    and tgt.attr in f.cls.class_attrs and not any(
+                        isinstance(a, ast.Assign) and any(isinstance(t, ast.Attribute) and t.attr == tgt.attr and isinstance(t.value, ast.Name) and t.value.id == "self"
+                                                          for t in a.targets) for m_ in f.cls.methods.values() for a in ast.walk(m_.node)):
+                shared = True  # mutation of a class-level container through self
+            rep.oblige(("R4", "state", f.qname, norm(n)[:60]), not shared)
+            if shared:
+                rep.add("R4", f.qname, n, "validation writes module- or class-level state: the verdict on a node can depend on what was validated before",
+                        f.loc(n))
+    rep.floor("matcher objects used by validate.node", 1)
+    rep.floor("stores on the validation slice", 5)
+
+
 def run(ctx, rep):
     rep.explanation = (
         "shape of the recursive walk validate.tree decided over all its paths by marker dataflow: own node validated first, "
         "with the caller's list, outside any try; one unfiltered in-order loop over the children with an unconditional recursive "
         "call; the walk depends on exactly the metadata cut-off; the metadata constant agrees across tree / _validate_children / "
         "prune; node validation dereferences children only on the non-metadata side")
-    rep.rules_run = ["R1", "R2", "R3"]
+    rep.rules_run = ["R1", "R2", "R3", "R4"]
     rep.assumptions += ["per-node verdicts are C04/C01-C03's subject; C05 decides only how they are combined"]
     only = getattr(rep, "only", None)
-    for name, fn in (("R1", rule_r1), ("R2", rule_r2), ("R3", rule_r3)):
+    for name, fn in (("R1", rule_r1), ("R2", rule_r2), ("R3", rule_r3), ("R4", rule_r4)):
         if only in (None, name):
             fn(ctx, rep)
